@@ -28,6 +28,8 @@ extern void* verif_point_ret(int site, void* addr); /* runs the point, returns a
  * operand of __typeof__ / __auto_type twice and rejects statement expressions
  * that declare variables there.  __typeof__ does not evaluate its operand, so
  * `p` is evaluated exactly once, as the argument of verif_point_ret. */
+/* a call redirected by the weaver (stub_calls): the callee, defined in the same woven file, is used by contract */
+#define VERIF_STUB(f) stub_##f
 #define VERIF_PTR(n, p) ((__typeof__(p))verif_point_ret((n), (void*)(p)))
 #define VERIF_AT(p) ((__typeof__(p))verif_point_ret(-__LINE__, (void*)(p)))
 /* non-atomic read-modify-write of shared memory: operate on a shadow copy, commit after a second interference point */
